@@ -792,7 +792,11 @@ class GroupCoordinator(BaseCoordinator):
             if idle_time < self._max_poll_interval:
                 sleep_time = min(sleep_time, self._max_poll_interval - idle_time)
             else:
-                await self._maybe_leave_group()
+                try:
+                    await self._maybe_leave_group()
+                except asyncio.CancelledError:
+                    # cancelled by `_stop_heartbeat_task`, like above
+                    break
 
         log.debug("Stopping heartbeat task")
 
